@@ -93,7 +93,13 @@ fn through_bundle(input: &str, func: fn(&str) -> Cow<'_, str>) -> (String, Strin
             Some(p) => {
                 let mut errs = vec![];
                 let v = bundle.format_pattern(p, None, &mut errs);
-                if errs.is_empty() {
+                // the writer entry point must apply the transform exactly like the string entry point
+                let mut w = String::new();
+                let mut errs2 = vec![];
+                let _ = bundle.write_pattern(&mut w, p, None, &mut errs2);
+                if w != v {
+                    format!("WRITE-DIFFERS:{}", hex_enc(w.as_bytes()))
+                } else if errs.is_empty() {
                     hex_enc(v.as_bytes())
                 } else {
                     format!("err{}", errs.len())
